@@ -32,6 +32,9 @@ SCHEMES = {
     # ITS-style (before, after) bond orders and bond-type names: orders that are not numbers
     "tuple": (VATTR, [{"order": (1.0, 2.0)}, {"order": (2.0, 1.0)}], ["element"]),
     "string": (VATTR, [{"order": "SINGLE"}, {"order": "DOUBLE"}], ["element"]),
+    # label selections that leave the element out: nothing selected (skeleton only), charge only
+    "skeleton": (VATTR, EATTR, []),
+    "charge_only": ([{"element": "O", "charge": 0}, {"element": "N", "charge": 0}, {"element": "C", "charge": 1}], EATTR, ["charge"]),
 }
 NODE_ATTRS = [["element"]]
 
@@ -64,8 +67,16 @@ def gen_schemes(tier, seed):
             yield [eg.code_str(a), eg.code_str(b), "charge"]
             if len(a[0]) != len(b[0]):
                 yield [eg.code_str(b), eg.code_str(a), "charge"]
+    reps = [c for n in (2, 3) for c in eg.representatives(n, 3, 1)]
+    lab = [c for n in (2, 3) for c in eg.all_labelled(n, 3, 1)]
+    for a in reps:
+        for b in lab:
+            yield [eg.code_str(a), eg.code_str(b), "charge_only"]
     reps = [c for n in (2, 3) for c in eg.representatives(n, 2, 2) if eg.n_edges(c) >= 1]
     lab = [c for n in (2, 3) for c in eg.all_labelled(n, 2, 2) if eg.n_edges(c) >= 1]
+    for a in reps:
+        for b in lab:
+            yield [eg.code_str(a), eg.code_str(b), "skeleton"]
     for i, a in enumerate(reps):
         for b in lab:
             yield [eg.code_str(a), eg.code_str(b), "tuple" if (i % 2 == 0 or tier != "quick") else "string"]
